@@ -39,7 +39,7 @@ type quiet struct{}
 
 func (quiet) Name() string                                  { return "quiet" }
 func (quiet) Configure(config map[string]interface{}) error { return nil }
-func (quiet) Printf(format string, v ...interface{})       {}
+func (quiet) Printf(format string, v ...interface{})        {}
 
 const licText = "N7b6urJ1yn0mnB5BCbNgG7tG2D2UfBpCbXYxVyWGGI0RV2wwB1XTLVDIqoWbtlM5aSTYBnKNcxXbQO8jY5Y30BZeqO5dAGGkCfY3FdTo02DWxC6SHSaBTAH2aPpGIfsC"
 
@@ -66,12 +66,12 @@ type node struct {
 }
 
 type cluster struct {
-	nodes  []*node
-	links  map[[2]int]*mesh.VerifSender
-	key    string
-	ssids  []message.Ssid
-	byLuid map[uint64]*client
-	base   uint64 // connection ids are base+1, base+2, ...: the model's connection id is the offset
+	nodes   []*node
+	links   map[[2]int]*mesh.VerifSender
+	key     string
+	ssids   []message.Ssid
+	byLuid  map[uint64]*client
+	base    uint64 // connection ids are base+1, base+2, ...: the model's connection id is the offset
 	gossips []*simGossip
 }
 
@@ -336,7 +336,7 @@ func be64(b []byte) uint64 {
 	}
 	return x
 }
-func be32(b []byte) uint32 { return uint32(be64(b)) }
+func be32(b []byte) uint32                    { return uint32(be64(b)) }
 func modelKey(peer, conn, ssid uint64) uint64 { return (peer*1048576+conn)*1048576 + ssid }
 
 // sev is one scripted event (directed scenarios: the witnesses of the known findings).
